@@ -44,3 +44,41 @@ Proof.
   split. { vm_compute. reflexivity. } split. { vm_compute. reflexivity. } split. { vm_compute. reflexivity. }
   vm_compute. reflexivity.
 Qed.
+
+(* ---- the defect repaired by fix commit c1676db: a referent listed as revealed (credential one) AND as
+   unrevealed (credential two); the restriction is true of credential two only; the value shown is
+   credential one's. The behaviour before the fix accepts; the reference predicate says the restriction
+   is not true of the credential that reveals; the repaired behaviour refuses. ---- *)
+Definition cfg_unrev_first : vcfg :=
+  {| f_check_preds := true; f_unrev_in_schema := true; f_unrev_intervals := true;
+     f_gate_on_creddef := true; f_require_nrp := true; f_w3c_strict_subject := true;
+     f_common_link := true; f_bind_schema := true; f_w3c_norm_keys := true; f_marker := true;
+     f_no_index_panic := true; f_no_unwrap_panic := true; f_pred_range := true;
+     f_w3c_pred_cv := true; f_group_unrevealed := true; f_group_keys := true; f_w3c_nrp_search := true; f_restr_revealed_first := false |}.
+Definition k_src2 := {| src_key := 2; src_attrs := ["role"; "name"]; src_values := [("role", encode "dev"); ("name", encode "Bob")];
+                        src_cred_link := 7; src_used_link := 0; src_pos := 0; src_altered := false |}.
+Definition k_c2 := {| hc_schema := "schema:two"; hc_creddef := "creddef:two"; hc_revreg := None; hc_issuer := "issuer:two";
+                      hc_values := [("role", ("dev", encode "dev")); ("name", ("Bob", encode "Bob"))];
+                      hc_subject := [("role", VStr "dev"); ("name", VStr "Bob")]; hc_src := k_src2 |}.
+Definition k_cx := {| cx_schemas := [("schema:one", {| sc_name := "s"; sc_version := "1.0"; sc_issuer := "issuer:one"; sc_attrs := ["Name"; "age"; "Zip Code"] |});
+                                    ("schema:two", {| sc_name := "t"; sc_version := "1.0"; sc_issuer := "issuer:two"; sc_attrs := ["role"; "name"] |})];
+                      cx_creddefs := cx_creddefs e_cx; cx_regdefs := None; cx_lists := None; cx_override := None |}.
+Definition k_req := {| rq_nonce := 5;
+   rq_attrs := [("a1", {| ai_name := Some "NAME"; ai_names := None; ai_restr := Some (Eq "cred_def_id" "creddef:two"); ai_nr := None |}); ("u1", e_ai "Role")];
+   rq_preds := []; rq_nr := None |}.
+Definition k_sel := [{| pr_cred := e_c1; pr_ts := None; pr_state := None; pr_attrs := [("a1", true)]; pr_preds := [] |};
+                     {| pr_cred := k_c2; pr_ts := None; pr_state := None; pr_attrs := [("u1", false)]; pr_preds := [] |}].
+Definition add_unrev (P : presentation) (r : string) (i : Z) : presentation :=
+  {| p_proofs := p_proofs P; p_agg := p_agg P; p_ids := p_ids P;
+     p_rp := {| rp_revealed := rp_revealed (p_rp P); rp_groups := rp_groups (p_rp P); rp_self := rp_self (p_rp P);
+                rp_unrev := rp_unrev (p_rp P) ++ [(r, i)]; rp_preds := rp_preds (p_rp P) |} |}.
+Example c06_unfixed_refuted :
+  match create_legacy pcfg_fixed k_req k_cx 7 k_sel [] with
+  | ROk P =>
+      let P' := add_unrev P "a1" 1 in
+      verify_legacy cfg_unrev_first k_req P' k_cx = Accept /\ creddefs_distinct k_cx = true /\ restr_true_legacy k_req P' k_cx = false /\
+      verify_legacy cfg_fixed k_req P' k_cx = Err /\
+      (* without the second entry the same presentation is refused by both *)
+      verify_legacy cfg_unrev_first k_req P k_cx = Err
+  | _ => False end.
+Proof. vm_compute. repeat split; reflexivity. Qed.
